@@ -8,11 +8,9 @@ use crate::haystack::val::{
     Str, Symbol, Time, Uri, Value as HVal, XStr,
 };
 
-use crate::haystack::timezone::make_date_time_with_tz;
 use crate::units::get_unit;
 use crate::val::GRID_FORMAT_VERSION;
 
-use chrono::{Offset, Utc};
 use serde::de::{Deserialize, Deserializer, Error, MapAccess, SeqAccess, Visitor};
 use std::fmt;
 
@@ -435,19 +433,16 @@ fn parse_time(dict: &Dict) -> Result<HVal, JsonErr> {
 
 fn parse_datetime(dict: &Dict) -> Result<HVal, JsonErr> {
     match dict.get_str("val") {
-        Some(val) => match DateTime::parse_from_rfc3339(&val.value) {
-            Ok(date) => match dict.get_str("tz") {
-                Some(tz) => {
-                    let datetime =
-                        make_date_time_with_tz(&date.with_timezone(&Utc.fix()), &tz.value);
-                    match datetime {
-                        Ok(datetime) => Ok(HVal::DateTime(datetime.into())),
-                        Err(err) => Err(JsonErr::custom(err)),
-                    }
-                }
-                None => Ok(HVal::make_datetime(date)),
+        Some(val) => match dict.get_str("tz") {
+            // The zone is given: the offset in 'val' does not have to name a zone of its own
+            Some(tz) => match DateTime::parse_from_rfc3339_with_timezone(&val.value, &tz.value) {
+                Ok(datetime) => Ok(HVal::make_datetime(datetime)),
+                Err(err) => Err(JsonErr::custom(format!("Invalid datetime 'val', {err}"))),
             },
-            Err(err) => Err(JsonErr::custom(format!("Invalid datetime 'val', {err}"))),
+            None => match DateTime::parse_from_rfc3339(&val.value) {
+                Ok(date) => Ok(HVal::make_datetime(date)),
+                Err(err) => Err(JsonErr::custom(format!("Invalid datetime 'val', {err}"))),
+            },
         },
         None => Err(JsonErr::custom("Missing or invalid 'val'")),
     }
